@@ -6,7 +6,7 @@
 
 use std::{error::Error, fmt, str::FromStr};
 
-use onig::{Regex, RegexOptions, Syntax, SyntaxBehavior};
+use onig::{MatchParam, Regex, RegexOptions, SearchOptions, Syntax, SyntaxBehavior};
 
 use super::{Matcher, MatcherIO, WalkEntry};
 
@@ -117,9 +117,24 @@ impl RegexMatcher {
 }
 
 impl Matcher for RegexMatcher {
-    fn matches(&self, file_info: &WalkEntry, _: &mut MatcherIO) -> bool {
-        self.regex
-            .is_match(file_info.path().to_string_lossy().as_ref())
+    fn matches(&self, file_info: &WalkEntry, matcher_io: &mut MatcherIO) -> bool {
+        let path = file_info.path().to_string_lossy();
+        // Regex::is_match() panics when the engine gives up (its limit on
+        // backtracking, the match stack): that is an error to report.
+        match self.regex.match_with_param(
+            path.as_ref(),
+            0,
+            SearchOptions::SEARCH_OPTION_NONE,
+            None,
+            MatchParam::default(),
+        ) {
+            Ok(end) => end == Some(path.len()),
+            Err(e) => {
+                eprintln!("find: {path}: {e}");
+                matcher_io.set_exit_code(1);
+                false
+            }
+        }
     }
 }
 
